@@ -65,6 +65,11 @@ func main() {
 			cache[h] = cb
 			return h
 		}
+		// base names whose common prefix and common suffix overlap, names that contain each other, one-letter names: the
+		// candidates of a deleted file are ordered by the edit distance of the base names
+		tricky := []string{"index.js", "index.min.js", "foo.go", "fooo.go", "test.py", "test_test.py", "a", "aa", "aaa", "ab.ab", "ab.ab.ab", "x.c", "x.x.c", "b", "go.go.go"}
+		trickyNames := rng.Intn(3) == 0
+		shift := rng.Intn(5)
 		var changes object.Changes
 		var delNames, addNames, modNames []string
 		delH, addH := map[plumbing.Hash]int{}, map[plumbing.Hash]int{}
@@ -80,6 +85,9 @@ func main() {
 			}
 			base = append(base, data)
 			name := fmt.Sprintf("old/pkg/file_%03d.go", i)
+			if trickyNames && i < len(tricky) {
+				name = "old/pkg/" + tricky[i]
+			}
 			h := mk(data)
 			changes = append(changes, &object.Change{From: object.ChangeEntry{Name: name, TreeEntry: object.TreeEntry{Name: name, Hash: h}}})
 			delNames = append(delNames, name)
@@ -101,6 +109,9 @@ func main() {
 				data = text(rng, 15+rng.Intn(40), 400)
 			}
 			name := fmt.Sprintf("new/pkg/file_%03d.go", i)
+			if trickyNames && i < len(tricky) {
+				name = "new/pkg/" + tricky[(i+1+shift)%len(tricky)]
+			}
 			h := mk(data)
 			changes = append(changes, &object.Change{To: object.ChangeEntry{Name: name, TreeEntry: object.TreeEntry{Name: name, Hash: h}}})
 			addNames = append(addNames, name)
